@@ -425,8 +425,6 @@ def run_plan(plan: dict) -> RunResult:
                 # a 5 s silence must fail the transfer rather than complete it
                 if successful(obj) and not model_complete:
                     violate("C20/complete/early", xkind=kind, have=sorted(state["have"]), eof=state["eof"], reason="end")
-                elif not obj._future.done():
-                    violate("C20/timeout/never-failed", xkind=kind, have=sorted(state["have"]), eof=state["eof"])
                 elif failed(obj):
                     res.probe("timed_out")
             if not stopped:
